@@ -18,6 +18,10 @@ PROPS = {
    text='GC (range check, destination choice, in-place rewrite, copy, two-step tree repoint, hint write, source clear, truncate) is part of Bucket.tla at the grain of gc.go; MC_Seq with GC enumerates every accepted (begin,end) over small multi-file histories incl. restarts; on the real store random histories with GC passes (also repeated, followed by writes and restarts with index subsets removed) are executed and all reads validated by TLC against the reference map.',
    note='merge=off passes only so far (merge-on GC sleeps SecsBeforeDump+1 s per pass and is exercised in the thorough tier only when enabled); GC is requested only when no post-rotation flush is pending (that schedule belongs to C05).',
    technique='TLA+ model checking (TLC) + TLC trace validation of real executions'),
+ 'C13': dict(level='model_checking', design='DESIGN.md 6 C13',
+   text='Bucket.tla keeps one tree slot per key HASH, the collision table, per-split (hash,key) hint maps and the hint lookup of the read path; MC_Seq with two/three keys forced onto one hash checks that a read never returns another key\'s record (C13_NoAlias, also through restarts and GC) and that each key keeps its own latest value (C13_ReadMap; TLC rediscovers findings F8a/F8b). On the real store the test-only hash override forces groups of 2-3 keys onto one hash; random histories with restarts (index subsets removed) and GC are executed and every read is validated by TLC against a reference map that is independent of the transcription (acceptance of explicit revisions on colliding keys is taken from the code, as the property excludes their versions).',
+   note='Known findings F8a (replayed tombstone of one colliding key removes the shared slot: the other key misses after a restart) and F8b (check_vhash compares with the other key\'s value hash) are excused by their signatures. Observation F8c (delete of a live colliding key refused with NOT_FOUND when the slot holds another key\'s tombstone) is not counted: the operation is refused, not acknowledged. The documented real colliding key pair is not used (hash override instead).',
+   technique='TLA+ model checking (TLC) + TLC trace validation of real executions'),
  'C17': dict(level='model_checking', design='DESIGN.md 6 C17',
    text='RangeOf (gcCheckStart/End/Range with the age predicate as input) is part of Bucket.tla; every GC request of the scenarios is compared with it (accepted range or refusal), and the before/after inventory of the data files (sizes, content hashes of the old prefix) is checked against the frame clause: files outside [begin,end] keep their bytes, at most one earlier file grows, nothing at or above the head is touched.',
    note='The "at most one pass per bucket" clause (two concurrent requests) is checked by the schedule family once built; pretend mode and days>0 arguments are exercised through gcCheckRange only.',
@@ -54,6 +58,14 @@ MC = {
                                          INVS='TypeOK C18_OnlyCurrent C18_Once NoFatal')),
                          ('MC_Seq', dict(MaxOps=6, MaxRestarts=1, WithGC='TRUE', FileMax=2, Vals='{1}', Revs='{0}', MaxChunk=4,
                                          Mutants='{"KF7"}', INVS='TypeOK C18_OnlyCurrent C18_Once NoFatal'))]},
+    'C13': {'quick': [('MC_Seq', dict(KEYS='{"b", "c"}', HASHIDS='{"hb"}', Collide='TRUE', MaxOps=3, MaxRestarts=0, Vals='{1, 2}', Revs='{0}',
+                                      INVS='TypeOK C13_ReadMap C13_NoAlias NoFatal')),
+                      ('MC_Seq', dict(KEYS='{"b", "c"}', HASHIDS='{"hb"}', Collide='TRUE', MaxOps=3, MaxRestarts=1, Vals='{1, 2}', Revs='{0}',
+                                      INVS='TypeOK C13_NoAlias NoFatal'))],
+            'thorough': [('MC_Seq', dict(KEYS='{"b", "c"}', HASHIDS='{"hb"}', Collide='TRUE', MaxOps=4, MaxRestarts=0, Vals='{1, 2}', Revs='{0}',
+                                         INVS='TypeOK C13_ReadMap C13_NoAlias NoFatal')),
+                         ('MC_Seq', dict(KEYS='{"a", "b", "c"}', HASHIDS='{"ha", "hb"}', Collide='TRUE', MaxOps=4, MaxRestarts=1, Vals='{1}', Revs='{0}',
+                                         WithGC='TRUE', FileMax=2, INVS='TypeOK C13_NoAlias NoFatal'))]},
     'C17': {'quick': [('MC_Seq', dict(MaxOps=4, WithGC='TRUE', FileMax=2, Vals='{1}', Revs='{0}', MaxChunk=3))],
             'thorough': [('MC_Seq', dict(MaxOps=6, WithGC='TRUE', FileMax=2, Vals='{1}', Revs='{0}', MaxChunk=4))]},
     'C02': {'quick': [('MC_Seq', dict(MaxOps=3, CheckVH='FALSE', MaxRestarts=1))],
